@@ -150,3 +150,15 @@ CHECKS["C19"] = dict(
     outside=["RR/SR/DLRR derived figures (RTT, remote loss, jitter)", "the interceptor fan-out and the Queue*/channel plumbing", "a stream whose first sequence number is below the reordering distance (unwrapper corner)", "FIR whose media SSRC field is 0 (RFC 5104 form)"],
     assumptions=["pion/logging no-op"],
 )
+
+CHECKS["C05"] = dict(
+    jobs=[
+        dict(pkg="pkg/twcc", entry="HC05Chunks", params=dict(symbols=16), require_covers=["chunk flushed"], thorough=dict(params=dict(symbols=24))),
+        dict(pkg="pkg/twcc", entry="HC05Packer", params=dict(steps=3, wire=1, dchoices=6), require_covers=["packet built"], thorough=dict(params=dict(steps=4, dchoices=6), timeout=3400)),
+        dict(pkg="pkg/twcc", entry="HC05Recorder", params=dict(records=3, span=3), require_covers=["feedback built", "duplicate ignored"], thorough=dict(params=dict(records=4, span=3), timeout=3400)),
+    ],
+    bounds=dict(quick="chunk packer: ANY sequence of 16 status symbols (0/1/2), emitted chunks decode to the driven sequence and are well formed; feedback packer: 3 received packets with gaps of 0 or 2 lost in between, arrival steps case-split over a table of boundary values (0, 124/125 us rounding, 255.5-unit small/large border, 64 ms, int16 limit, negative), 3 reference times, symbolic base sequence number (wrap) -> independent decode within 125 us, one delta per received status, real rtcp Marshal/Unmarshal round trip and declared length; recorder: 3 records (offsets 0..3 from 2 bases incl. wrap, duplicates, reordering, 4 arrival steps up to 70 ms) with a build after a case-split prefix and at the end",
+                thorough="24 symbols; 4 packer steps; 4 records"),
+    outside=["arrival-time values other than the tabled boundary values (the 64-bit divide/multiply chain by 250 and 64000 does not finish symbolically: unknown at 60 s in z3 and cvc5; cvc5 --solve-bv-as-int=sum decides single steps only)", "gaps longer than 2 / sequence jumps beyond 4", "the 500 ms culling rule (steps stay below it)", "first sequence number below the reordering distance (unwrapper corner)", "sender interceptor loop"],
+    assumptions=["case splits over the tables are exhaustive per table; each path's arithmetic is concrete, the solver decides the sequence-number arithmetic (symbolic base) and all slice/index checks"],
+)
